@@ -305,6 +305,22 @@ func (c *Ctx) checkForwarderSSA(rule string, sp fwdSpec) fwdResultSSA {
 							okExit = true
 						}
 					}
+					// errExit: the edge that leaves is the "child failed" outcome (err != nil), not the
+					// "child succeeded" one - leaving after the first success skips the remaining children
+					if okExit && sp.mode == fwdErrExit {
+						op, x, y, isCmp := cmpOf(iff.Cond)
+						if isCmp && (op == token.EQL || op == token.NEQ) {
+							if isNilConst(x) {
+								x, y = y, x
+							}
+							if isNilConst(y) && types.Identical(x.Type(), types.Universe.Lookup("error").Type()) {
+								failEdge := b2i(op == token.EQL) // index of the err != nil outcome
+								if b.Succs[failEdge] != s {
+									return fail(iff.Pos(), "the loop over the children is left when a child SUCCEEDS (err == nil) instead of when it fails: after the first success the remaining children are not called")
+								}
+							}
+						}
+					}
 				}
 			}
 			if !okExit {
